@@ -62,6 +62,9 @@ def slotted(  # noqa: C901
     """
 
     def _slots_setstate(self, state):
+        # Without slot-stored fields the state is the bare instance dict.
+        if not isinstance(state, tuple):
+            state = (state,)
         for param_dict in filter(None, state):
             for slot, value in param_dict.items():
                 object.__setattr__(self, slot, value)
@@ -76,7 +79,12 @@ def slotted(  # noqa: C901
             ) from None
 
         _stack.add(key)
+        try:
+            return _wrap(cls)
+        finally:
+            _stack.discard(key)
 
+    def _wrap(cls):
         if (
             sys.version_info >= (3, 10) and constants.PKG_NAME not in cls.__module__
         ):  # pragma: no cover
@@ -84,12 +92,20 @@ def slotted(  # noqa: C901
                 f"You are using Python {sys.version}. "
                 "Python 3.10 introduced native support for slotted dataclasses. "
                 "This is the preferred method for adding slots.",
-                stacklevel=2,
+                stacklevel=3,
             )
 
         cls_dict = {**cls.__dict__}
         # Create only missing slots
         inherited_slots = set().union(*(getattr(c, "__slots__", ()) for c in cls.mro()))
+        # A base without `__slots__` already stores its own fields,
+        #   and provides `__dict__` and `__weakref__` for its subclasses.
+        for base in cls.mro()[1:]:
+            inherited_slots.update(getattr(base, "__dataclass_fields__", ()))
+            if getattr(base, "__dictoffset__", 0):
+                inherited_slots.add("__dict__")
+            if getattr(base, "__weakrefoffset__", 0):
+                inherited_slots.add("__weakref__")
 
         field_names = {f.name: ... for f in dataclasses.fields(cls) if f.name}
         if dict:
@@ -119,7 +135,6 @@ def slotted(  # noqa: C901
         new_cls.__qualname__ = cls.__qualname__
         new_cls.__module__ = cls.__module__
 
-        _stack.clear()
         return new_cls
 
     return wrap if _cls is None else wrap(_cls)
